@@ -81,17 +81,22 @@ def run(cfg):
         a = _atom(_P(rets[0][2]))
         if a and a[0] == 'cond':
             c, x, y = a[1], _P(a[2]), _P(a[3])
-            ok = x == mag and y == -mag and 'mSign' in poly_key_str(c)
-            # the condition must be "sign is non-negative"
+            # the condition is a test of the sign field (mSign is -1 or +1: ">= 0" and "> 0" select the same arm, so do
+            # "< 0" and "<= 0"); the magnitude goes to the non-negative arm and its negation to the other
             ca = _atom(_P(c))
-            ok = ok and ca is not None and ca[0] == 'cmp' and ca[1] in ('>=', '>') and _P(ca[2]) == SG
+            ok = False
+            if ca is not None and ca[0] == 'cmp':
+                cf_ = cmp_formula(ca[1], _P(ca[2]), _P(ca[3]))
+                pos = any(formulas_equivalent(cf_, cmp_formula(op, SG, Poly.const(0)))[0] for op in ('>=', '>'))
+                negt = any(formulas_equivalent(cf_, cmp_formula(op, SG, Poly.const(0)))[0] for op in ('<', '<='))
+                ok = (pos and x == mag and y == -mag) or (negt and x == -mag and y == mag)
             why = 'toSeconds() returns %s' % poly_key_str(rets[0][2])[:200]
     elif len(rets) == 2:
         ok = True
         for g, kind, res, eff in rets:
-            posf = cmp_formula('>=', SG, Poly.const(0))
-            ispos, _ = formulas_equivalent(g, posf)
-            ok = ok and _P(res) == (mag if ispos else -mag)
+            ispos = any(formulas_equivalent(g, cmp_formula(op, SG, Poly.const(0)))[0] for op in ('>=', '>'))
+            isneg = any(formulas_equivalent(g, cmp_formula(op, SG, Poly.const(0)))[0] for op in ('<', '<='))
+            ok = ok and ((ispos and _P(res) == mag) or (isneg and _P(res) == -mag))
     ob('R1', f.name, f.loc, ok, why)
     # ---- compareTo
     f = lib.fn('ace_time::TimePeriod::compareTo')
@@ -281,4 +286,20 @@ SELFTEST = [
     dict(id='hour-helper-signed-local', file='src/ace_time/zoned_date_time_mutation.h',
          find='  uint8_t hour = dateTime.hour();\n  ace_common::incrementMod(hour, (uint8_t) 24);', replace='  int8_t hour = dateTime.hour();\n  ace_common::incrementMod(hour, (int8_t) 24);', rule='R3', construct='incrementHour'),
     dict(id='day-helper-no-offset', file='src/ace_time/zoned_date_time_mutation.h', find='incrementModOffset(day, (uint8_t) 31, (uint8_t) 1);', replace='incrementMod(day, (uint8_t) 31);', rule='R3', construct='incrementDay'),
+    # behaviour-preserving rewrites: the rules must stay quiet
+    dict(id='period-recomposition-reordered-silent', file='src/ace_time/TimePeriod.h',
+         find='      int32_t seconds = ((mHour * (int16_t) 60) + mMinute) * (int32_t) 60\n          + mSecond;',
+         replace='      int32_t seconds = mSecond + (int32_t) 60 * (mMinute + (mHour * (int16_t) 60));', expect='silent'),
+    dict(id='period-compare-from-the-other-end-silent', file='src/ace_time/TimePeriod.h',
+         find='      if (thisSeconds < thatSeconds) {\n        return -1;\n      } else if (thisSeconds == thatSeconds) {\n        return 0;\n      } else {\n        return 1;\n      }',
+         replace='      if (thisSeconds > thatSeconds) {\n        return 1;\n      } else if (thisSeconds == thatSeconds) {\n        return 0;\n      } else {\n        return -1;\n      }', expect='silent'),
+    dict(id='period-ctor-branches-swapped-silent', file='src/ace_time/TimePeriod.h',
+         find='      if (seconds < 0) {\n        mSign = -1;\n        seconds = -seconds;\n      } else {\n        mSign = 1;\n      }',
+         replace='      if (seconds >= 0) {\n        mSign = 1;\n      } else {\n        mSign = -1;\n        seconds = -seconds;\n      }', expect='silent'),
+    dict(id='period-sign-test-inverted-silent', file='src/ace_time/TimePeriod.h', find='return (mSign >= 0) ? seconds : -seconds;', replace='return (mSign < 0) ? -seconds : seconds;', expect='silent'),
+    dict(id='period-sign-applied-by-if-silent', file='src/ace_time/TimePeriod.h', find='return (mSign >= 0) ? seconds : -seconds;',
+         replace='if (mSign < 0) {\n        return -seconds;\n      }\n      return seconds;', expect='silent'),
+    dict(id='period-sign-applied-to-wrong-arm', file='src/ace_time/TimePeriod.h', find='return (mSign >= 0) ? seconds : -seconds;',
+         replace='return (mSign < 0) ? seconds : -seconds;', rule='R1', construct='toSeconds'),
+    dict(id='offset-composition-commuted-silent', file='src/ace_time/TimeOffset.h', find='int16_t minutes = hour * 60 + minute;', replace='int16_t minutes = minute + 60 * hour;', expect='silent'),
 ]
